@@ -188,6 +188,18 @@ impl RecomputeHeap {
         Some(node)
     }
 
+    /// Verification hook: every scheduled node with the bucket it sits in.
+    #[cfg(cormacrelf_incremental_rs_verif)]
+    pub(crate) fn verif_entries(&self) -> Vec<(usize, NodeRef)> {
+        let mut out = vec![];
+        for (h, q) in self.queues.borrow().iter().enumerate() {
+            for n in q.borrow().iter() {
+                out.push((h, n.clone()));
+            }
+        }
+        out
+    }
+
     pub(crate) fn max_height_allowed(&self) -> i32 {
         self.queues.borrow().len() as i32 - 1
     }
